@@ -62,8 +62,17 @@ def analyse_mask(obs: Obs, prog):
     a = ("call", ("attr", GF, "assess"), (P("sample"), INNER_ARGS), ())
     form = lin(pair[0])
     obs.add({"C01", "C02", "C14"}, "SCORE-GATE", "Mask.assess/score", form == {frozenset([CHECK, mk_proj(a, 0)]): 1}, derived=show_lin(form), expected="check * inner assess score", where=W(M, "assess"))
-    okr = (is_t(pair[1], "ctor") and pair[1][1] == "Mask" and pair[1][2] == (mk_proj(a, 1), CHECK)) or is_mask_build(pair[1], mk_proj(a, 1), CHECK)
-    obs.add({"C01", "C14"}, "SCORE-GATE", "Mask.assess/retval", okr, derived=pair[1], expected="Mask(inner retval, check)", where=W(M, "assess"))
+    # the inner return value may itself be a Mask (f.mask().mask(), a @gen function returning a masked value): only Mask.build merges the flags, the raw
+    # constructor asserts `not isinstance(value, Mask)`.  Sibling agreement: simulate / generate / edit all wrap with Mask.build (MaskTrace.build).
+    okr = is_mask_build(pair[1], mk_proj(a, 1), CHECK)
+    obs.add({"C01", "C14"}, "SCORE-GATE", "Mask.assess/retval", okr, derived=pair[1], expected="Mask.build(inner retval, check) - as MaskTrace.build does for simulate / generate / edit; the raw Mask(...) constructor rejects an inner return value that is a Mask", where=W(M, "assess"))
+    # flag False must be inert: simulate / generate store `choices.mask(check)`, which for a CONCRETE False flag is the statically empty map; assess is
+    # handed exactly that map on the round trip assess(tr.get_choices(), tr.get_args()), so its inner assess must not run (demand addresses) on a path
+    # where the flag is concretely False
+    ungated = [ret for conds, ret in r.returns if mentions(ret, a) and not any(mentions(t, CHECK) for t, _p in conds)]
+    obs.add({"C14"}, "BRANCH-EFFECT", "Mask.assess/MissingAddress", not ungated, construct="inner assess runs whatever the flag is",
+            derived="self.gen_fn.assess(sample, inner_args) is called on every path; with a concrete False flag the trace's own choices are statically empty, so assess(tr.get_choices(), tr.get_args()) raises MissingAddress (a traced False flag gives score 0)",
+            expected="no demand for the inner addresses when the flag is concretely False", where=W(M, "assess"))
     # edit
     r = ev.eval_fn(M.methods["edit"], M.module, M)
     w = W(M, "edit")
@@ -103,6 +112,22 @@ def analyse_mask(obs: Obs, prog):
             derived=" | ".join(desc), expected="T->T inner edit weight; T->F -(old inner score); F->T +(new inner score); F->F 0   (= post*S' - pre*S)", where=w)
     okrd = is_mask_build(q[2], mk_proj(E, 2), mk_proj(AD, 0))
     obs.add({"C14", "C08"}, "TRACE-RETVAL", "Mask.edit/retdiff", okrd, derived=q[2], expected="Mask.build(inner retdiff, check diff)", where=w)
+    # contradiction rule (callee belief vs caller fact): the Mask arm of Mask.build asserts that neither flag is a Diff, yet edit hands it the *diff* of the flag
+    # (argdiffs[0]) together with the inner retdiff - and the inner return value may itself be a Mask (its retdiff then is a Mask whose flag is a Diff)
+    FT = prog.cls("Mask", "generative/functional_types.py")
+    bnode = FT.methods["build"]
+    import ast as _ast
+    guarded = []
+    for mc in [n for n in _ast.walk(bnode) if isinstance(n, _ast.match_case)]:
+        if isinstance(mc.pattern, _ast.MatchClass) and _ast.unparse(mc.pattern.cls) == "Mask":
+            for a_ in [n for n in _ast.walk(mc) if isinstance(n, _ast.Assert)]:
+                txt = _ast.unparse(a_.test)
+                if "isinstance" in txt and "Diff" in txt and "not" in txt:
+                    guarded.append(a_.lineno)
+    flag_is_diff = okrd and q[2][2][1] == mk_proj(AD, 0)  # an element of `argdiffs: Argdiffs`, never passed through tree_primal
+    obs.add({"C14"}, "BUILD-PRECOND", "Mask.edit/retdiff", not (guarded and flag_is_diff), construct="Mask.build(inner retdiff, check_diff) when the inner return value is a Mask",
+            derived=f"Mask.build's `case Mask(value, g)` arm asserts the flags are not Diffs (functional_types.py:{guarded[:1]}); Mask.edit passes argdiffs[0] (a Diff) with the inner function's retdiff, which is a Mask whenever the inner function returns one",
+            expected="either Mask.build combines Diff flags (primal and_, tangent join) or edit never reaches that arm", where=w)
     okb = is_t(q[3], "ctor") and q[3][1] == "Update" and mentions(q[3], ("attr", mk_proj(E, 3), "constraint"))
     obs.add({"C06", "C05", "C14"}, "BWD-OLDVALUES", "Mask.edit/bwd", okb, derived=q[3], expected="Update(<inner backward constraint> ...)", where=w)
     obs.add({"C06"}, "BWD-CLOSED", "Mask.edit", is_t(q[3], "ctor") and q[3][1] == "Update", derived=q[3][1] if is_t(q[3], "ctor") else "?", expected="Update", where=w)
